@@ -28,3 +28,9 @@ Definition run_single (c : nat * nat) : int :=
 
 Definition run_template (lens : list nat) : int :=
   hashN (map (fun b : bool => if b then 1%N else 0%N) (template lens)).
+
+(* front ends on explicit labels (end-to-end: labels of the final model state) *)
+Definition run_front_joint (c : nat * list nat * list Z) : int :=
+  let '(W, Ts, labels) := c in hash_rowsZ (front_joint_labels W Ts labels).
+Definition run_front_single (c : nat * list Z) : int :=
+  let '(W, labels) := c in hash_rowsZ [front_single_labels W labels].
